@@ -1,4 +1,5 @@
 import QuicModel.Drivers.DcReplay
+import QuicModel.Drivers.KeySet
 import QuicModel.Drivers.PacketNumber
 import QuicModel.Drivers.PnMap
 import QuicModel.Drivers.SlidingWindow
@@ -6,5 +7,5 @@ import QuicModel.Drivers.TxPn
 import QuicModel.Drivers.VarInt
 namespace Quic.Drivers
 def all : List Component :=
-  DcReplay.components ++ PacketNumber.components ++ PnMap.components ++ SlidingWindow.components ++ TxPn.components ++ VarInt.components
+  DcReplay.components ++ KeySet.components ++ PacketNumber.components ++ PnMap.components ++ SlidingWindow.components ++ TxPn.components ++ VarInt.components
 end Quic.Drivers
